@@ -93,7 +93,7 @@ def targeted(r):
 
 
 def backend_runs(r, quick):
-    specs = targeted(r) + bkgen.all_optimizer_scenarios(r, 5 if quick else 40, constraint_p=1.0)
+    specs = targeted(r) + bkgen.all_optimizer_scenarios(r, C.T(5, 40), constraint_p=1.0)
     fails, keys, samples = [], set(), []
     for spec in specs:
         blog = bkd.Log()
@@ -115,7 +115,7 @@ def run():
     chk.build_and_audit()
     r = C.rng("C02")
     quick = C.tier() != "thorough"
-    il = chk.stage("Initializer function-level", init_level, r, 150 if quick else 1500)
+    il = chk.stage("Initializer function-level", init_level, r, C.T(150, 1500))
     if il:
         n, dis, keys, fails = il
         chk.corr("function-level Initializer.set_pos / add_n_random_init_pos vs GFO.Model.Init.setPos (recorded draws and constraint verdicts)", n, dis, keys,
@@ -127,10 +127,10 @@ def run():
         chk.monitor("C02 statement on real runs of all 22 optimizers under constraints (objective arguments, search_data, best_para, positive check before emission)", n, fails, keys, samples)
     chk.assumptions.append("constraints are deterministic functions of the parameter set; that each optimizer's iterate has the shape 'emit only after a positive check' is established per run by the constraint log, not by a theorem per optimizer")
     from . import localgen
-    localgen.add_to(chk, C.rng("C02-local"), 8 if C.tier() != "thorough" else 80, constraint_p=1.0)
-    localgen.add_grid_to(chk, C.rng("C02-grid"), 30 if C.tier() != "thorough" else 300, constraint_p=1.0)
-    localgen.add_pt_to(chk, C.rng("C02-pt"), 20 if C.tier() != "thorough" else 200, constraint_p=1.0)
-    localgen.add_pattern_to(chk, C.rng("C02-pattern"), 20 if C.tier() != "thorough" else 200, constraint_p=1.0, nonfinite_p=0.0)
-    localgen.add_powell_to(chk, C.rng("C02-powell"), 20 if C.tier() != "thorough" else 200, constraint_p=1.0, nonfinite_p=0.0)
+    localgen.add_to(chk, C.rng("C02-local"), C.T(8, 80), constraint_p=1.0)
+    localgen.add_grid_to(chk, C.rng("C02-grid"), C.T(30, 300), constraint_p=1.0)
+    localgen.add_pt_to(chk, C.rng("C02-pt"), C.T(20, 200), constraint_p=1.0)
+    localgen.add_pattern_to(chk, C.rng("C02-pattern"), C.T(20, 200), constraint_p=1.0, nonfinite_p=0.0)
+    localgen.add_powell_to(chk, C.rng("C02-powell"), C.T(20, 200), constraint_p=1.0, nonfinite_p=0.0)
     scen.shutdown_manager()
     return chk.finish()
